@@ -97,7 +97,8 @@ def make_replay(task, obl, ev, concrete_src=None):
     w('from pyvc.rt import *')
     w('from pyvc.rt import _mk, Struct')
     w('try:\n    from contracts.specfn import *\nexcept ImportError:\n    pass')
-    w('ns = dict(vars(M)); ns.update({k: v for k, v in globals().items() if not k.startswith("__")})')
+    w('ns = dict(vars(py_ballisticcalc)); ns.update(vars(M)); '
+      'ns.update({k: v for k, v in globals().items() if not k.startswith("__")})')
     prelude = []
     if concrete_src is not None:
         srcs = dict(concrete_src)
@@ -151,7 +152,7 @@ def make_replay(task, obl, ev, concrete_src=None):
     olds = []
     if (kind in ('post',) or kind.startswith('exc-post:')) and obl.note:
         clause, olds = rewrite_old(obl.note)
-    w('old_ns = dict(vars(M)); old_ns.update({k: v for k, v in globals().items() if not k.startswith("__")}); '
+    w('old_ns = dict(vars(py_ballisticcalc)); old_ns.update(vars(M)); old_ns.update({k: v for k, v in globals().items() if not k.startswith("__")}); '
       'old_ns.update(old_args)')
     for k, osrc in enumerate(olds):
         w(f'ns["__old_{k}"] = eval({osrc!r}, old_ns)')
